@@ -27,15 +27,17 @@ def slug(s):
     return re.sub(r'[^A-Za-z0-9_.-]+', '_', s)[:80]
 
 
-def write_replay(pid, key, case, msg):
+def write_replay(pid, key, case, msg, task=None):
     d = os.path.join(VERIF, 'replays')
     if os.environ.get('VERIF_EVIDENCE_DIR'):
         d = os.path.join(os.environ['VERIF_EVIDENCE_DIR'], 'replays')
     os.makedirs(d, exist_ok=True)
     path = os.path.join(d, f'{pid}-{slug(key)}.json')
     with open(path, 'w') as f:
-        f.write(json.dumps({'property': pid, 'key': key, 'case': json.loads(jdump(case)),
-                            'detail': msg}, indent=1, sort_keys=True))
+        rec = {'property': pid, 'key': key, 'case': json.loads(jdump(case)), 'detail': msg}
+        if task is not None:
+            rec['task'] = json.loads(jdump(list(task)))
+        f.write(json.dumps(rec, indent=1, sort_keys=True))
     return path
 
 
@@ -43,10 +45,14 @@ def do_replay(mod, path):
     with open(path) as f:
         rec = json.load(f)
     acc = Acc()
-    mod.replay(rec['case'], acc)
+    if rec.get('task') and os.environ.get('VERIF_REPLAY_TASK'):
+        # history-dependent violation: re-run the whole worker task it arose in (deterministic given its argument)
+        getattr(mod, rec['task'][0])(rec['task'][1], acc)
+    else:
+        mod.replay(rec['case'], acc)
     keys = sorted(acc.viol)
     for k in keys:
-        for case, msg in acc.viol[k][:1]:
+        for case, msg, *_ in acc.viol[k][:1]:
             print(f'REPLAY property={mod.PID} key={k} :: {msg}')
     if acc.errors:
         for e in acc.errors:
@@ -154,13 +160,21 @@ def main(argv=None):
 
     rc = 1
     for i, key in enumerate(new):
-        case, msg = acc.viol[key][0]
-        path = write_replay(pid, key, case, msg)
+        case, msg, task = acc.viol[key][0]
+        path = write_replay(pid, key, case, msg, task)
         if i < 6 and not a.no_confirm:
             # re-execute from the replay file in a fresh interpreter; must reproduce
             env = dict(os.environ)
             r = subprocess.run([sys.executable, '-m', 'mc.run', pid, '--replay', path],
                                cwd=VERIF, env=env, capture_output=True, text=True)
+            if (r.returncode != 1 or f'key={key}' not in r.stdout) and task is not None:
+                # the single case passes on its own: the failure depends on the calls made before it.  Re-run the whole
+                # (deterministic) worker task it arose in, in a fresh interpreter.
+                env['VERIF_REPLAY_TASK'] = '1'
+                r = subprocess.run([sys.executable, '-m', 'mc.run', pid, '--replay', path],
+                                   cwd=VERIF, env=env, capture_output=True, text=True)
+                if r.returncode == 1 and f'key={key}' in r.stdout:
+                    msg = '[depends on the preceding calls of its task; replay with VERIF_REPLAY_TASK=1] ' + msg
             if r.returncode != 1 or f'key={key}' not in r.stdout:
                 print(f'MACHINERY-ERROR: violation {key} did not reproduce from {path} '
                       f'in a fresh interpreter (rc={r.returncode}):\n{r.stdout[-1500:]}{r.stderr[-1500:]}')
